@@ -17,6 +17,7 @@ import runner
 import vlib
 from vlib import hexs
 from checks import c09 as gen9
+import uper_streams
 
 I64_MIN = -(2 ** 63)
 I64_MAX = 2 ** 63 - 1
@@ -527,7 +528,7 @@ class AttrStream(runner.Stream):
 
 class Spec(runner.Spec):
     prop = "C08"
-    streams = [AttrStream()]
+    streams = [AttrStream(), uper_streams.DescConsistency()]
     assumptions = [
         "text -> token tree is proc_macro2's lexer (trusted, checked by `attr print`: the real text is lexed by proc_macro2 and compared token by token with the model printer)",
         "only the attribute language of struct fields / tuple structs / CHOICE variants is modelled (type, tag, const); the definition header (`sequence`, `choice`, tag, extensible_after) and `Model<Rust>` <-> `asn::Type` conversion (`into_asn`, `convert_asn_to_rust`) are exercised by `attr reparse` on the real code only",
